@@ -243,7 +243,7 @@ def run(tier, seed, argv):
 
     rep = Report("C09", tier, seed)
     jobs = jobs_for(tier)
-    jobs += random_jobs(seed, 6 if tier == "quick" else 40, tier)
+    jobs += random_jobs(seed, 6 if tier == "quick" else 200, tier)
     if argv:
         jobs = [j for j in jobs if j["id"] in argv]
     rep.bounds = dict(jobs=len(jobs), stop_steps="every k in 0..T, T<=3 (quick) / 4 (thorough)", configs="Shampoo/SOAP, Adam/RMSprop/SGD/no grafting, momentum, filtering, two groups, blocked parameters, a block without Kronecker factors",
